@@ -626,26 +626,30 @@ def contingency_wrapper(
     """
     cleanup = True
     try:
-        ret = yield from plan
+        # The inner try is the user-visible try / except / else; the outer one
+        # notices a close (``GeneratorExit``) wherever it lands -- in ``plan``, in
+        # ``except_plan`` or in ``else_plan`` -- so that the clean-up is skipped.
+        try:
+            ret = yield from plan
+        except Exception as e:
+            if pause_for_debug:
+                yield from pause()
+            if except_plan:
+                # it might be better to throw this in, but this is simpler
+                # to implement for now
+                ret = yield from except_plan(e)
+                if auto_raise:
+                    raise
+                else:
+                    return ret
+            else:
+                raise
+        else:
+            if else_plan:
+                yield from else_plan()
     except GeneratorExit:
         cleanup = False
         raise
-    except Exception as e:
-        if pause_for_debug:
-            yield from pause()
-        if except_plan:
-            # it might be better to throw this in, but this is simpler
-            # to implement for now
-            ret = yield from except_plan(e)
-            if auto_raise:
-                raise
-            else:
-                return ret
-        else:
-            raise
-    else:
-        if else_plan:
-            yield from else_plan()
     finally:
         # if the exception raised in `GeneratorExit` that means
         # someone called `gen.close()` on this generator.  In those
